@@ -25,6 +25,10 @@
      Rule             decision = "newline" <=> \E e : e.from = n      (the documented rule; the
                       model's theorem is that Rule and the two mechanisms give KeepsReading)
 
+   PartialAtEnd (the statement's second sentence is not restricted to prefixes) and the error
+   ranges are judged on every recorded text, also on texts that are not prefixes of valid
+   programs (c.prefix = FALSE); PrefixPartial and KeepsReading only on prefixes.
+
    Unspecified(c): a prefix that parses cleanly.  The statement's "for every such prefix"
    speaks about prefixes with errors; what Enter does on a clean prefix (the code submits) is
    left open, both decisions are accepted.                                                  *)
